@@ -1,12 +1,15 @@
 """C01-C04 share one suite for the agent scheduler (harness/schedlib.py, props/schedsuite.py);
 C01-C03 also cover the application-level slot finder (props/nodelistsuite.py)."""
-from props import schedsuite, nodelistsuite
+from props import schedsuite, nodelistsuite, rmchain
 PROP = 'C01'
 LEAN_TARGETS = ['RPVerif.Props.C01']
 def run(ctx):
     schedsuite.run(ctx, 'C01')
     nodelistsuite.run(ctx, 'C01')
+    rmchain.run(ctx, 'C01')
 def replay(ctx, data):
+    if 'rm_chain' in data['input']:
+        return rmchain.replay(ctx, data, 'C01')
     if 'nodelist' in data['input']:
         return nodelistsuite.replay(ctx, data, 'C01')
     return schedsuite.replay(ctx, data, 'C01')
